@@ -1007,7 +1007,8 @@ static void mode_edits(int argc, char **argv) {
     int E = atoi(hx_arg(argc, argv, "--edits", thorough ? "2" : "1")), P = atoi(hx_arg(argc, argv, "--preempt", thorough ? "2" : "1"));
     int cfgi = atoi(hx_arg(argc, argv, "--cfg", "0"));
     edits_cfg_menu(cfgi, &ECFG); EDEVS = atoi(hx_arg(argc, argv, "--devs", "0"));
-    for (int b = 0; b < NBASES; b++) {
+    int maxbase = atoi(hx_arg(argc, argv, "--maxbase", "1000"));           /* only the first N bases (the deviation product is large) */
+    for (int b = 0; b < NBASES && b < maxbase; b++) {
         load_base(&BASES[b]);
         int nq0 = NEQ, nr0 = NER;
         int e1q = n_edits_of(nq0, NQP), e1r = n_edits_of(nr0, NRP);
